@@ -50,7 +50,9 @@ func (c *Ctx) decodeLoopFn() *ssa.Function {
 // initDefaultFn: the function of the decode closure that invokes InitDefault.
 func (c *Ctx) initDefaultFn() *ssa.Function {
 	for _, fn := range c.decodeClosureFns() {
-		if fnHasCall(fn, func(ci ssa.CallInstruction) bool { return ci.Common().IsInvoke() && ci.Common().Method.Name() == "InitDefault" }) {
+		if fnHasCall(fn, func(ci ssa.CallInstruction) bool {
+			return ci.Common().IsInvoke() && ci.Common().Method.Name() == "InitDefault"
+		}) {
 			return fn
 		}
 	}
